@@ -2,6 +2,8 @@ import DVP.Gen.HermiteField
 import Mathlib.Tactic.FieldSimp
 import Mathlib.Tactic.Ring
 import Mathlib.Tactic.LinearCombination
+import Mathlib.Tactic.Linarith
+import Mathlib.Algebra.Order.Field.Basic
 
 namespace DVP.Hermite
 open DVP.Gen.Hermite
@@ -115,5 +117,27 @@ theorem data_from_cubic (t0 t1 p0 p1 m0 m1 : K) (h : t1 ≠ t0) :
   · simp only [e3, e2, f01, r]; field_simp; ring
   · ring
   · simp only [e3, e2, f01, r]; field_simp; ring
+
+/-- the interpolation error on a quartic is exactly its leading coefficient times `(te - t0)^2 (te - t1)^2` -/
+theorem call_quartic_error (a b c d e t0 t1 te : K) (h : t1 ≠ t0) :
+    (a + b*te + c*te^2 + d*te^3 + e*te^4) -
+      call t0 t1 (a + b*t0 + c*t0^2 + d*t0^3 + e*t0^4) (a + b*t1 + c*t1^2 + d*t1^3 + e*t1^4)
+        (b + 2*c*t0 + 3*d*t0^2 + 4*e*t0^3) (b + 2*c*t1 + 3*d*t1^2 + 4*e*t1^3) te = e * ((te - t0)^2 * (te - t1)^2) := by
+  have h' : t1 - t0 ≠ 0 := sub_ne_zero.mpr h
+  rw [call_eq_callPoly]
+  unfold callPoly
+  simp only
+  field_simp
+  ring
+
+theorem node_product_bound {K : Type} [Field K] [LinearOrder K] [IsStrictOrderedRing K] (t0 t1 te : K)
+    (hin : (te - t0) * (te - t1) ≤ 0) : (te - t0)^2 * (te - t1)^2 ≤ (t1 - t0)^4 / 16 := by
+  have h1 : 0 ≤ -((te - t0) * (te - t1)) := by linarith
+  have h2 : -((te - t0) * (te - t1)) ≤ (t1 - t0)^2 / 4 := by nlinarith [sq_nonneg (2*te - t0 - t1)]
+  have : (te - t0)^2 * (te - t1)^2 = (-((te - t0) * (te - t1)))^2 := by ring
+  rw [this]
+  have h3 : (t1 - t0)^4 / 16 = ((t1 - t0)^2 / 4)^2 := by ring
+  rw [h3]
+  exact pow_le_pow_left₀ h1 h2 2
 
 end DVP.Hermite
